@@ -8,12 +8,12 @@ export CARGO_NET_OFFLINE=true
 if ! cmp -s /repo/Cargo.lock .Cargo.lock.src 2>/dev/null; then
   cp /repo/Cargo.lock Cargo.lock && cp /repo/Cargo.lock .Cargo.lock.src
 fi
-mkdir -p /verif/work /verif/evidence /verif/replays
-if ! cargo build --offline >/verif/work/build.$$.log 2>&1; then
+mkdir -p /verif/evidence /verif/replays /verif/target
+if ! cargo build --offline >/verif/target/build.$$.log 2>&1; then
   echo "MACHINERY: harness/repo build failed (see below)" >&2
-  tail -n 40 /verif/work/build.$$.log >&2
-  rm -f /verif/work/build.$$.log
+  tail -n 40 /verif/target/build.$$.log >&2
+  rm -f /verif/target/build.$$.log
   exit 2
 fi
-rm -f /verif/work/build.$$.log
+rm -f /verif/target/build.$$.log
 exec /verif/target/debug/verif check "$ID"
